@@ -1,4 +1,5 @@
 import OH.Model.Peg
+import OH.Proofs.PegAttr
 /-
 Engine lemmas about the PEG interpreter (any grammar):
  * `run_sound`      a successful match splits the input: `inp = eaten ++ rest`;
@@ -264,6 +265,47 @@ theorem run_quiet (e : PExpr ρ) : ∀ (q : Bool) (inp : List Char), run e true 
     cases run a (q || atomic) inp with
     | none => rfl
     | some r => cases q <;> rfl
+
+/-! ### unfolding equations (simp set `peg`; `e*` deliberately absent) -/
+
+@[peg] theorem run_str (s : List Char) (q : Bool) (inp : List Char) :
+    run (.str s : PExpr ρ) q inp = (stripPrefix s inp).map fun r => ⟨[], s, r⟩ := rfl
+@[peg] theorem run_range_cons (lo hi : Char) (q : Bool) (c : Char) (r : List Char) :
+    run (.range lo hi : PExpr ρ) q (c :: r) = if lo ≤ c ∧ c ≤ hi then some ⟨[], [c], r⟩ else none := rfl
+@[peg] theorem run_range_nil (lo hi : Char) (q : Bool) : run (.range lo hi : PExpr ρ) q [] = none := rfl
+@[peg] theorem run_any_cons (q : Bool) (c : Char) (r : List Char) :
+    run (.any : PExpr ρ) q (c :: r) = some ⟨[], [c], r⟩ := rfl
+@[peg] theorem run_any_nil (q : Bool) : run (.any : PExpr ρ) q [] = none := rfl
+@[peg] theorem run_soi (q : Bool) (inp : List Char) : run (.soi : PExpr ρ) q inp = some (R.nil inp) := rfl
+@[peg] theorem run_eoi_nil (q : Bool) : run (.eoi : PExpr ρ) q [] = some (R.nil []) := rfl
+@[peg] theorem run_eoi_cons (q : Bool) (c : Char) (r : List Char) : run (.eoi : PExpr ρ) q (c :: r) = none := rfl
+@[peg] theorem run_seq (a b : PExpr ρ) (q : Bool) (inp : List Char) :
+    run (.seq a b) q inp =
+      (match run a q inp with
+       | none => none
+       | some r1 =>
+         match run b q r1.rest with
+         | none => none
+         | some r2 => some (r1.append r2)) := rfl
+@[peg] theorem run_alt (a b : PExpr ρ) (q : Bool) (inp : List Char) :
+    run (.alt a b) q inp = (match run a q inp with | some x => some x | none => run b q inp) := rfl
+@[peg] theorem run_opt (a : PExpr ρ) (q : Bool) (inp : List Char) :
+    run (.opt a) q inp = (match run a q inp with | some x => some x | none => some (R.nil inp)) := rfl
+@[peg] theorem run_notp (a : PExpr ρ) (q : Bool) (inp : List Char) :
+    run (.notp a) q inp = (match run a true inp with | some _ => none | none => some (R.nil inp)) := rfl
+@[peg] theorem run_andp (a : PExpr ρ) (q : Bool) (inp : List Char) :
+    run (.andp a) q inp = (match run a true inp with | some _ => some (R.nil inp) | none => none) := rfl
+@[peg] theorem run_rule (name : ρ) (atomic : Bool) (a : PExpr ρ) (q : Bool) (inp : List Char) :
+    run (.rule name atomic a) q inp =
+      (match run a (q || atomic) inp with
+       | none => none
+       | some r =>
+         if q then some ⟨[], r.eaten, r.rest⟩
+         else some ⟨[Tree.node name r.eaten r.kids], r.eaten, r.rest⟩) := rfl
+@[peg] theorem stripPrefix_cons_cons (c d : Char) (cs ds : List Char) :
+    stripPrefix (c :: cs) (d :: ds) = if c = d then stripPrefix cs ds else none := rfl
+@[peg] theorem stripPrefix_cons_nil (c : Char) (cs : List Char) : stripPrefix (c :: cs) [] = none := rfl
+attribute [peg] stripPrefix_nil R.append R.nil
 
 /-- a look-ahead can be decided in normal mode -/
 theorem run_notp_eq (a : PExpr ρ) (q : Bool) (inp : List Char) :
